@@ -154,3 +154,29 @@ pub proof fn lemma_pz_guarded_only_unpaused(w0: World, steps: Seq<PzOp>, i: int)
         lemma_pz_guarded_only_unpaused(w0, steps.drop_last(), i);
     }
 }
+
+// ---- non-vacuity: the hypotheses of the history lemmas are satisfiable ----
+pub proof fn lemma_pz_push(w0: World, steps: Seq<PzOp>, op: PzOp)
+    requires pz_valid(w0, steps), pz_guard(pz_run(w0, steps), op),
+    ensures pz_valid(w0, steps.push(op)), pz_run(w0, steps.push(op)) == pz_post(pz_run(w0, steps), op),
+{
+    assert(steps.push(op).drop_last() =~= steps);
+}
+/// pause; unpause; a guarded entry point — is a valid history from any unpaused state
+pub proof fn lemma_pz_witness(w0: World)
+    requires !is_paused(w0),
+    ensures
+        //@@ C16:witness.pausable_history
+        pz_valid(w0, seq![PzOp::Pause, PzOp::Unpause, PzOp::Guarded { w2: unpause_post(pause_post(w0)) }]),
+{
+    let s0 = Seq::<PzOp>::empty();
+    lemma_pz_push(w0, s0, PzOp::Pause);
+    lemma_pause_step(w0);
+    let s1 = s0.push(PzOp::Pause);
+    lemma_pz_push(w0, s1, PzOp::Unpause);
+    lemma_pause_step(pause_post(w0));
+    let s2 = s1.push(PzOp::Unpause);
+    let w2 = unpause_post(pause_post(w0));
+    lemma_pz_push(w0, s2, PzOp::Guarded { w2: w2 });
+    assert(s2.push(PzOp::Guarded { w2: w2 }) =~= seq![PzOp::Pause, PzOp::Unpause, PzOp::Guarded { w2: w2 }]);
+}
